@@ -64,6 +64,28 @@ def run(tier, replay):
             rep.violation('relocate_hi/lo({}) = {} does not rebuild the value'.format(v, impl), dict(case=dict(v=v, impl=impl)))
         rep.nontrivial(('v', v & 0xfff, (v >> 12) & 0xfffff, v < 0, abs(v) >= M32))
     rep.count('values', len(vals))
+    # the same split as an assembler nobody here wrote computes it: LLVM's %hi / %lo of a constant
+    from harness import llvmx
+    if llvmx.available():
+        lv = [v for v in vals if 0 <= v < M32][:1500] + [rnd.randrange(0, M32) for _ in range(1500)] + [0x7ff, 0x800, 0xfff, 0x1000, 0xfffff7ff, 0xfffff800, M32 - 1]
+        enc = llvmx.assemble(['lui x1, %%hi(%d)' % v for v in lv] + ['addi x1, x1, %%lo(%d)' % v for v in lv], rvc=False)
+        nl = len(lv)
+        for k, v in enumerate(lv):
+            a, b = enc[k], enc[nl + k]
+            rep.evaluations += 1
+            if a is None or b is None:
+                rep.count('llvm_hi_lo_refused')
+                continue
+            lhi = int.from_bytes(a, 'little') >> 12
+            llo = int.from_bytes(b, 'little') >> 20
+            hi, lo = asm.relocate_hi(v), asm.relocate_lo(v)
+            if lhi != hi % (1 << 20) or llo != lo % (1 << 12):
+                rep.violation('%%hi/%%lo of {}: relocate_hi/lo give fields {} / {} but LLVM encodes {} / {}'.format(
+                    v, hi % (1 << 20), lo % (1 << 12), lhi, llo), dict(case=dict(v=v, impl='%d %d' % (hi, lo))))
+            else:
+                rep.count('llvm_hi_lo_agree')
+    else:
+        rep.count('llvm_hi_lo_skipped_no_llvm_mc')
     # sign_extend too
     se = [(rnd.randrange(-2 ** 40, 2 ** 40), b) for b in (12, 20) for _ in range(3000)]
     rs = common.drv(['sext %d %d' % (v, b) for v, b in se])
